@@ -1490,7 +1490,7 @@ func init() {
 				"section_length_boundaries": c15SectBoundaries, "header_length_boundaries": c15HeaderBoundaries, "length_margin": c15Margin,
 				"largest_block_bytes": 1<<21 + c15Margin, "largest_root_count": (1<<14+c15Margin)/39 + 2, "not_explored": "section length 2^28 (above the 32 MiB go-car's readers accept), header length 2^21 (~51000 roots)"}
 		},
-		Assumptions: []string{
+		Assumptions: []string{"for DAGs whose longest CID exceeds the default MaxIndexCidSize the option is raised to that length (the documented limit is not the subject); an identity block served from its digest without asking the store is completed in the load log",
 			"hand-written dag-cbor and dag-pb encoders",
 			"the reference traversal is ipld-prime's own walker driven directly by the harness (go-ipld-prime is trusted, go-car is not)",
 			"v2 AllowDuplicatePuts (documented as ignored by the v2 root package, implemented as link-visit-once off): either traversal is accepted",
